@@ -209,7 +209,7 @@ class QueryStream(Stream):
         ]
 
     def gen(self, rng, tier):
-        n = 260 if tier == "quick" else 7000
+        n = 260 if tier == "quick" else 5000
         cases = []
         for _ in range(n):
             rows, bases, cbases = _rows(rng, rng.randint(1, 8))
@@ -382,7 +382,7 @@ class SqliteStream(Stream):
                 {"op": 2, "pat": "a?[*", "s": "a?[x"}, {"op": 2, "pat": "a_b*", "s": "axb"}]
 
     def gen(self, rng, tier):
-        n = 1500 if tier == "quick" else 20000
+        n = 1500 if tier == "quick" else 12000
         cases = []
         for _ in range(n):
             op = rng.choice([0, 1, 1, 2])
